@@ -1,3 +1,338 @@
-import LpModel.C06
+/-
+  C06 — Gamma-function family: the property theorems (DESIGN.md §6 C06 [T1]).
+  Model: LpModel/C06.lean (exact rationals; exp/log/sqrt/pow are parameters `T : Transc`).
+  Helper lemmas: LpProofs/C06/Factorial.lean, LpProofs/C06/Lentz.lean, LpProofs/C06/Inverse.lean.
+
+  Correspondence-only (not theorems): accuracy of the Lanczos sum, limits of the series and of
+  the continued fraction, the quadrature branch, accuracy of the Halley inversion, P,Q ∈ [0,1] and
+  monotone in x.
+-/
+import LpProofs.C06.Factorial
+import LpProofs.C06.Lentz
+import LpProofs.C06.Inverse
+
 namespace Lp.C06
+open Nat
+
+/-! ## Factorial: the memo machine, for every history of calls -/
+
+theorem tblInv_tbl0 : TblInv tbl0 := ⟨1, le_refl 1, rfl⟩
+
+/-- what the invariant says: the table is non-empty and holds `i!` at every index -/
+theorem tblInv_entries (t : Tbl) (ht : TblInv t) :
+    1 ≤ t.length ∧ ∀ i, i < t.length → t.getD i 0 = ((i ! : Nat) : Rat) := by
+  obtain ⟨m, hm, rfl⟩ := ht
+  rw [FT_length]
+  exact ⟨hm, fun i hi => FT_getD m i hi⟩
+
+/-- one call `n ≤ 170` from any table satisfying the invariant returns `n!`, keeps the invariant,
+    and the table has grown to `max size (n+1)` entries -/
+theorem factorial_spec (t : Tbl) (n : Nat) (ht : TblInv t) (hn : n ≤ 170) :
+    (factorial t n).1 = .ok ((n ! : Nat) : Rat) ∧ TblInv (factorial t n).2 ∧
+      (factorial t n).2.length = max t.length (n + 1) := by
+  obtain ⟨m, hm, rfl⟩ := ht
+  rw [factorial_FT m n hm hn, FT_length, FT_length]
+  exact ⟨rfl, ⟨max m (n + 1), le_trans hm (le_max_left _ _), rfl⟩, rfl⟩
+
+/-- `n > 170`: diagnostic, table unchanged -/
+theorem factorial_overflow (t : Tbl) (n : Nat) (hn : 170 < n) : factorial t n = (.error .diag, t) := by
+  unfold factorial; rw [if_pos hn]
+
+/-- **factorial_history**: for every sequence of calls `≤ 170`, in any order and with any
+    repetitions, from any table satisfying the invariant (in particular the initial `{1.0}`), every
+    call `n` returns `n!` and the invariant `tbl[i] = i!` holds afterwards. -/
+theorem factorial_history (t : Tbl) (calls : List Nat) (ht : TblInv t) (h : ∀ n ∈ calls, n ≤ 170) :
+    (runCalls t calls).1 = calls.map (fun n => Except.ok ((n ! : Nat) : Rat)) ∧ TblInv (runCalls t calls).2 := by
+  induction calls generalizing t with
+  | nil => exact ⟨rfl, ht⟩
+  | cons n r ih =>
+    obtain ⟨m, hm, rfl⟩ := ht
+    have hn : n ≤ 170 := h n (by simp)
+    have hr : ∀ k ∈ r, k ≤ 170 := fun k hk => h k (by simp [hk])
+    obtain ⟨ih1, ih2⟩ := ih (FT (max m (n + 1))) ⟨max m (n + 1), le_trans hm (le_max_left _ _), rfl⟩ hr
+    simp only [runCalls, factorial_FT m n hm hn, List.map_cons]
+    exact ⟨by rw [ih1], ih2⟩
+
+/-- a call `n > 170` inside a history: the calls before it return their factorials, the call
+    itself ends the process with a diagnostic, the table is the one the earlier calls left. -/
+theorem factorial_history_overflow (t : Tbl) (pre post : List Nat) (n : Nat) (ht : TblInv t)
+    (hpre : ∀ k ∈ pre, k ≤ 170) (hn : 170 < n) :
+    (runCalls t (pre ++ n :: post)).1 = pre.map (fun k => Except.ok ((k ! : Nat) : Rat)) ++ [Except.error Err.diag] ∧
+      (runCalls t (pre ++ n :: post)).2 = (runCalls t pre).2 := by
+  induction pre generalizing t with
+  | nil => simp [runCalls, factorial_overflow t n hn]
+  | cons k r ih =>
+    obtain ⟨m, hm, rfl⟩ := ht
+    have hk : k ≤ 170 := hpre k (by simp)
+    have hr : ∀ j ∈ r, j ≤ 170 := fun j hj => hpre j (by simp [hj])
+    obtain ⟨ih1, ih2⟩ := ih (FT (max m (k + 1))) ⟨max m (k + 1), le_trans hm (le_max_left _ _), rfl⟩ hr
+    simp only [List.cons_append, runCalls, factorial_FT m k hm hk, List.map_cons]
+    exact ⟨by rw [ih1], ih2⟩
+
+/-- history independence (justifies the bit-identical class-D check): the value of a call does
+    not depend on the table state reached by any earlier calls -/
+theorem factorial_history_independent (t₁ t₂ : Tbl) (n : Nat) (h₁ : TblInv t₁) (h₂ : TblInv t₂) :
+    (factorial t₁ n).1 = (factorial t₂ n).1 := by
+  by_cases hn : n ≤ 170
+  · rw [(factorial_spec t₁ n h₁ hn).1, (factorial_spec t₂ n h₂ hn).1]
+  · rw [factorial_overflow t₁ n (by omega), factorial_overflow t₂ n (by omega)]
+
+example : (runCalls tbl0 [5, 2, 7, 0]).1 = [.ok 120, .ok 2, .ok 5040, .ok 1] := by decide +kernel
+example : (runCalls tbl0 [5, 2, 7, 0]).2.length = 8 := by decide +kernel
+
+/-! ## Binomial_Coefficient -/
+
+/-- **binomial_floor** (pure arithmetic, every `n`): `⌊1/2 + n!/k!/(n−k)!⌋ = C(n,k)` -/
+theorem binomial_floor (n k : Nat) (h : k ≤ n) :
+    (((1 : Rat) / 2 + ((n ! : Nat) : Rat) / ((k ! : Nat) : Rat) / (((n - k)! : Nat) : Rat)).floor : Rat)
+      = ((n.choose k : Nat) : Rat) := floor_formula n k h
+
+/-- the code path `0 ≤ k ≤ n ≤ 170` from any table satisfying the invariant returns `C(n,k)` and
+    keeps the invariant -/
+theorem binomial_spec (big : Nat → Nat → Rat) (t : Tbl) (n k : Nat) (ht : TblInv t) (hk : k ≤ n) (hn : n ≤ 170) :
+    (binomial big t (n : Int) (k : Int)).1 = .ok ((n.choose k : Nat) : Rat) ∧ TblInv (binomial big t (n : Int) (k : Int)).2 := by
+  obtain ⟨m, hm, rfl⟩ := ht
+  have h1 : ¬ ((k : Int) < 0 ∨ (n : Int) < 0) := by omega
+  have h2 : ¬ ((n : Int) < (k : Int)) := by omega
+  have h3 : ¬ ((n : Int) > 170) := by omega
+  unfold binomial
+  rw [if_neg h1, if_neg h2, if_neg h3]
+  simp only [Int.toNat_natCast]
+  unfold binomialSmall
+  have hm1 : 1 ≤ max m (n + 1) := le_trans hm (le_max_left _ _)
+  have hm2 : 1 ≤ max (max m (n + 1)) (k + 1) := le_trans hm1 (le_max_left _ _)
+  simp only [factorial_FT m n hm hn, factorial_FT _ k hm1 (by omega), factorial_FT _ (n - k) hm2 (by omega)]
+  exact ⟨by rw [floor_formula n k hk], ⟨_, le_trans hm2 (le_max_left _ _), rfl⟩⟩
+
+/-- Pascal's rule and symmetry for the values the model returns (`n+1 ≤ 170`) -/
+theorem binomial_pascal (big : Nat → Nat → Rat) (t₁ t₂ t₃ : Tbl) (n k : Nat) (h₁ : TblInv t₁) (h₂ : TblInv t₂) (h₃ : TblInv t₃)
+    (hk : k + 1 ≤ n) (hn : n + 1 ≤ 170) :
+    ∃ c c₁ c₂ : Rat, (binomial big t₁ ((n + 1 : Nat) : Int) ((k + 1 : Nat) : Int)).1 = .ok c ∧
+      (binomial big t₂ (n : Int) (k : Int)).1 = .ok c₁ ∧ (binomial big t₃ (n : Int) ((k + 1 : Nat) : Int)).1 = .ok c₂ ∧ c = c₁ + c₂ := by
+  refine ⟨_, _, _, (binomial_spec big t₁ (n + 1) (k + 1) h₁ (by omega) hn).1, (binomial_spec big t₂ n k h₂ (by omega) (by omega)).1,
+    (binomial_spec big t₃ n (k + 1) h₃ hk (by omega)).1, ?_⟩
+  rw [Nat.choose_succ_succ]; push_cast; rfl
+
+theorem binomial_symm (big : Nat → Nat → Rat) (t₁ t₂ : Tbl) (n k : Nat) (h₁ : TblInv t₁) (h₂ : TblInv t₂) (hk : k ≤ n) (hn : n ≤ 170) :
+    (binomial big t₁ (n : Int) (k : Int)).1 = (binomial big t₂ (n : Int) ((n - k : Nat) : Int)).1 := by
+  rw [(binomial_spec big t₁ n k h₁ hk hn).1, (binomial_spec big t₂ n (n - k) h₂ (by omega) hn).1, Nat.choose_symm hk]
+
+/-- `n < k` → 0 -/
+theorem binomial_lt (big : Nat → Nat → Rat) (t : Tbl) (n k : Int) (h0 : 0 ≤ n) (h : n < k) :
+    binomial big t n k = (.ok 0, t) := by
+  unfold binomial
+  rw [if_neg (by omega), if_pos h]
+
+/-- negative argument → diagnostic -/
+theorem binomial_neg (big : Nat → Nat → Rat) (t : Tbl) (n k : Int) (h : k < 0 ∨ n < 0) :
+    binomial big t n k = (.error .diag, t) := by
+  unfold binomial
+  rw [if_pos h]
+
+/-- `n > 170`: the result is `C(n,k)` as soon as the glue `exp(GammaLn(n+1) − GammaLn(k+1) −
+    GammaLn(n−k+1))` is within `1/2` of it (what is needed of the transcendental part). -/
+theorem binomial_big (big : Nat → Nat → Rat) (t : Tbl) (n k : Nat) (hk : k ≤ n) (hn : 170 < n)
+    (hb : ((n.choose k : Nat) : Rat) - 1 / 2 ≤ big n k ∧ big n k < ((n.choose k : Nat) : Rat) + 1 / 2) :
+    binomial big t (n : Int) (k : Int) = (.ok ((n.choose k : Nat) : Rat), t) := by
+  have h1 : ¬ ((k : Int) < 0 ∨ (n : Int) < 0) := by omega
+  have h2 : ¬ ((n : Int) < (k : Int)) := by omega
+  have h3 : ((n : Int) > 170) := by omega
+  unfold binomial
+  rw [if_neg h1, if_neg h2, if_pos h3]
+  simp only [Int.toNat_natCast]
+  have : ((1 : Rat) / 2 + big n k).floor = ((n.choose k : Nat) : Int) := by
+    change ⌊(1 : Rat) / 2 + big n k⌋ = _
+    rw [Int.floor_eq_iff]
+    constructor
+    · push_cast; linarith [hb.1]
+    · push_cast; linarith [hb.2]
+  rw [this]
+  push_cast
+  rfl
+
+example : (binomial (fun _ _ => 0) tbl0 10 3).1 = .ok 120 := by decide +kernel
+example : (binomial (fun _ _ => 0) tbl0 3 10).1 = .ok 0 := by decide +kernel
+example : (binomial (fun _ _ => 0) tbl0 (-1) 2).1 = .error .diag := by decide +kernel
+
+/-! ## GammaQ / GammaP: branch selection and the identities that hold by construction -/
+
+/-- **gammaQ_branch_total**: for `x ≥ 0`, `a > 0` exactly one branch is taken, and which one -/
+theorem gammaQ_branch_total (x a : Rat) (hx : 0 ≤ x) (ha : 0 < a) :
+    ∃ br, gammaQBranch x a = .ok br ∧
+      (br = .zero ↔ x = 0) ∧ (br = .quad ↔ x ≠ 0 ∧ 100 < a) ∧
+      (br = .series ↔ x ≠ 0 ∧ a ≤ 100 ∧ x < a + 1) ∧ (br = .cf ↔ x ≠ 0 ∧ a ≤ 100 ∧ a + 1 ≤ x) := by
+  unfold gammaQBranch
+  rw [if_neg (by intro h; rcases h with h | h <;> linarith)]
+  by_cases h0 : x = 0
+  · rw [if_pos h0]; exact ⟨_, rfl, by simp [h0], by simp [h0], by simp [h0], by simp [h0]⟩
+  · rw [if_neg h0]
+    by_cases h1 : a > 100
+    · rw [if_pos h1]
+      exact ⟨_, rfl, by simp [h0], by simp [h0, h1], by simp; intro _ h; linarith, by simp; intro _ h; linarith⟩
+    · rw [if_neg h1]
+      have h1' : a ≤ 100 := not_lt.mp h1
+      by_cases h2 : x < a + 1
+      · rw [if_pos h2]
+        exact ⟨_, rfl, by simp [h0], by simp; intro _; exact h1', by simp [h0, h1', h2], by simp; intro _ _; exact h2⟩
+      · rw [if_neg h2]
+        exact ⟨_, rfl, by simp [h0], by simp; intro _; exact h1', by simp; intro _ _; exact not_lt.mp h2, by simp [h0, h1', not_lt.mp h2]⟩
+
+/-- the request is rejected exactly when `x < 0` or `a ≤ 0` -/
+theorem gammaQ_guard (x a : Rat) : gammaQBranch x a = .error .diag ↔ (x < 0 ∨ a ≤ 0) := by
+  unfold gammaQBranch
+  by_cases h : x < 0 ∨ a ≤ 0
+  · simp [h]
+  · rw [if_neg h]
+    simp only [h, iff_false]
+    split_ifs <;> simp
+
+/-- **gammaP_add_gammaQ**: whatever the three evaluators return, `P + Q = 1`, and `P` fails exactly
+    when `Q` fails -/
+theorem gammaP_add_gammaQ (E : Parts) (x a q : Rat) (h : gammaQ E x a = .ok q) :
+    ∃ p, gammaP E x a = .ok p ∧ p + q = 1 := by
+  refine ⟨1 - q, ?_, by ring⟩
+  unfold gammaP; rw [h]; rfl
+
+theorem gammaP_error (E : Parts) (x a : Rat) (e : Err) (h : gammaQ E x a = .error e) : gammaP E x a = .error e := by
+  unfold gammaP; rw [h]; rfl
+
+/-- **upper_add_lower**: `Upper + Lower = Gamma` -/
+theorem upper_add_lower (T : Transc) (E : Parts) (x s g q : Rat) (hg : gamma T s = .ok g) (hq : gammaQ E x s = .ok q) :
+    ∃ u l, upperGamma T E x s = .ok u ∧ lowerGamma T E x s = .ok l ∧ u + l = g := by
+  refine ⟨g * q, g * (1 - q), ?_, ?_, by ring⟩
+  · unfold upperGamma; rw [hg, hq]
+  · have hp : gammaP E x s = .ok (1 - q) := by unfold gammaP; rw [hq]; rfl
+    unfold lowerGamma; rw [hg, hp]
+
+/-- `Gamma = exp(GammaLn)` is positive as soon as `exp` is -/
+theorem gamma_pos (T : Transc) (hexp : ∀ y, 0 < T.exp y) (x g : Rat) (h : gamma T x = .ok g) : 0 < g := by
+  unfold gamma gammaLn at h
+  split_ifs at h
+  · cases h
+  · cases h; exact hexp _
+
+theorem gammaLn_guard (T : Transc) (x : Rat) : (∃ v, gammaLn T x = .ok v) ↔ 0 < x := by
+  unfold gammaLn
+  by_cases h : x ≤ 0
+  · simp [h]
+  · simp [h, not_le.mp h]
+
+example : gammaQBranch 3 2 = .ok .cf ∧ gammaQBranch 1 2 = .ok .series ∧ gammaQBranch 0 2 = .ok .zero ∧
+    gammaQBranch 5 101 = .ok .quad ∧ gammaQBranch (-1) 2 = .error .diag := by decide +kernel
+
+/-! ## GammaQcf: the term index advances and `h` is the n-th convergent -/
+
+/-- **lentz_index_advances** (the repaired defect): after `n` passes the index is `n + 1`, so the
+    pass `n` uses `a_{n+1} = -(n+1)(n+1-a)` -/
+theorem lentz_index_advances (fpmin x a : Rat) (n : Nat) : (lentzIter fpmin x a n).i = n + 1 := by
+  induction n with
+  | zero => rfl
+  | succ n ih => simp [lentzIter, lentzStep, lentzBody, ih]
+
+theorem lentz_coeff_is_legendre (fpmin x a : Rat) (n : Nat) :
+    coefA a (lentzIter fpmin x a n).i = legA a (n + 1) := by
+  rw [lentz_index_advances, coefA_eq]
+
+/-- the pre-fix loop never advances the index: every pass uses `a_1` -/
+theorem lentz_frozen_index (fpmin x a : Rat) (n : Nat) : (lentzIterFrozen fpmin x a n).i = 1 := by
+  induction n with
+  | zero => rfl
+  | succ n ih => simp [lentzIterFrozen, lentzStepFrozen, lentzBody, ih]
+
+/-- … which is not Legendre's coefficient: witness `a = 2`, second pass (`a_2 = 0`, the fraction
+    terminates and Q(3,2) = 4e⁻³; the frozen loop uses `a_1 = 1` again) -/
+theorem lentz_frozen_not_legendre :
+    coefA 2 (lentzIterFrozen (pow2 (-970)) 3 2 1).i ≠ legA 2 2 ∧
+      (lentzIterFrozen (pow2 (-970)) 3 2 2).h ≠ (lentzIter (pow2 (-970)) 3 2 2).h := by
+  constructor <;> decide +kernel
+
+/-- **lentz_convergent**: as long as neither `FPMIN` clamp fires, after `n` passes
+    `h = A_n / B_n`, `c = A_n / A_{n-1}`, `d = B_{n-1} / B_n`, `b = b_n`, with `A`, `B` the Wallis
+    numerators/denominators of Legendre's continued fraction started from `A_{-1} = FPMIN`
+    (`A_{-1} = 0` is the classical fraction; the code's initial `c = 1/FPMIN` stands for ∞). -/
+theorem lentz_convergent (fpmin x a : Rat) (hf : 0 < fpmin) (hb : x + 1 - a ≠ 0) (n : Nat)
+    (hc : ∀ k, k < n → NoClamp fpmin a (lentzIter fpmin x a k)) :
+    LentzInv fpmin x a n (lentzIter fpmin x a n) := by
+  induction n with
+  | zero => exact lentzInv_init fpmin x a hf hb
+  | succ n ih =>
+    exact lentzInv_step fpmin x a hf n _ (ih (fun k hk => hc k (by omega))) (hc n (by omega))
+
+theorem lentz_h_is_convergent (fpmin x a : Rat) (hf : 0 < fpmin) (hb : x + 1 - a ≠ 0) (n : Nat)
+    (hc : ∀ k, k < n → NoClamp fpmin a (lentzIter fpmin x a k)) :
+    (lentzIter fpmin x a n).h = (wallisA fpmin x a n).1 / (wallisB x a n).1 :=
+  (lentz_convergent fpmin x a hf hb n hc).hh
+
+/-- non-vacuity: `Q(3,2)`, no clamp in the first three passes -/
+example : ∀ k, k < 3 → NoClamp (pow2 (-970)) 2 (lentzIter (pow2 (-970)) 3 2 k) := by
+  intro k hk
+  have : k = 0 ∨ k = 1 ∨ k = 2 := by omega
+  rcases this with rfl | rfl | rfl <;> (unfold NoClamp; decide +kernel)
+
+/-! ## GammaPser: the terms of the series -/
+
+/-- **pser_terms**: the n-th term is `xⁿ / (a (a+1) … (a+n))` and the partial sums add them up -/
+theorem pser_terms (x a : Rat) (n : Nat) :
+    (pserIter x a n).del = x ^ n / poch a n ∧
+      (pserIter x a (n + 1)).sum = (pserIter x a n).sum + x ^ (n + 1) / poch a (n + 1) ∧
+      (pserIter x a 0).sum = 1 / a := by
+  refine ⟨pserIter_del x a n, ?_, by simp [pserIter, pserInit]⟩
+  rw [pserIter_sum_succ, pserIter_del]
+
+/-- the partial sums increase strictly for `x > 0`, `a > 0` -/
+theorem pser_partial_sums_increase (x a : Rat) (hx : 0 < x) (ha : 0 < a) (n : Nat) :
+    (pserIter x a n).sum < (pserIter x a (n + 1)).sum := by
+  rw [pserIter_sum_succ, pserIter_del]
+  have : 0 < x ^ (n + 1) / poch a (n + 1) := div_pos (pow_pos hx _) (poch_pos a ha _)
+  linarith
+
+/-- the loop of the code is the iteration, stopped by the convergence test -/
+theorem pserLoop_is_iter (eps x a : Rat) (fuel k : Nat) (s : PS) (n : Nat) (h : pserLoop eps x fuel (pserIter x a k) k = some (s, n)) :
+    s = pserIter x a n ∧ k ≤ n ∧ ¬ rabs s.del > rabs s.sum * eps := by
+  induction fuel generalizing k with
+  | zero => simp [pserLoop] at h
+  | succ f ih =>
+    unfold pserLoop at h
+    split_ifs at h with hc
+    · obtain ⟨h1, h2, h3⟩ := ih (k + 1) h
+      exact ⟨h1, by omega, h3⟩
+    · cases h
+      exact ⟨rfl, le_refl _, hc⟩
+
+/-! ## Inv_GammaP: guards; the result is never negative -/
+
+/-- **invGammaP_nonneg**: for every glue and every `P`, a returned value is `≥ 0`; the request is
+    rejected iff `a ≤ 0`; `p ≤ 0` gives 0 -/
+theorem invGammaP_nonneg (T : Transc) (P : Rat → Rat → Except Err Rat) (p a r : Rat) (h : invGammaP T P p a = .ok r) : 0 ≤ r := by
+  unfold invGammaP at h
+  cases hb : invBranch p a with
+  | error e => rw [hb] at h; cases h
+  | ok br =>
+    rw [hb] at h
+    cases br with
+    | top =>
+      cases h
+      unfold rmax
+      split_ifs with h1
+      · linarith
+      · norm_num
+    | bottom => cases h; exact le_refl _
+    | iterate =>
+      simp only at h
+      cases hg : gammaLn T a with
+      | error e => rw [hg] at h; cases h
+      | ok gln =>
+        rw [hg] at h
+        exact halley_nonneg T P p a gln 12 _ r h (Or.inr (by norm_num))
+
+theorem invGammaP_guard (T : Transc) (P : Rat → Rat → Except Err Rat) (p a : Rat) (ha : a ≤ 0) :
+    invGammaP T P p a = .error .diag := by
+  unfold invGammaP invBranch
+  rw [if_pos ha]
+
+theorem invGammaP_bottom (T : Transc) (P : Rat → Rat → Except Err Rat) (p a : Rat) (ha : 0 < a) (hp : p ≤ 0) :
+    invGammaP T P p a = .ok 0 := by
+  unfold invGammaP invBranch
+  rw [if_neg (not_le.mpr ha), if_neg (by intro h; linarith), if_pos hp]
+
 end Lp.C06
